@@ -68,6 +68,8 @@ def points(drv, tier, rng, n_random):
             pts.append((rng.uniform(-180, 180), 90 - rng.random() * e))
             pts.append((rng.uniform(-180, 180), -90 + rng.random() * e))
     pts += [(0.0, 90.0), (12.0, -90.0), (180.0, 0.0), (-180.0, 0.0), (179.999999999, 33.0), (-179.999999999, -33.0), (0.0, 0.0)]
+    # whole degrees (also asked as Python ints by the implementation driver), incl. the meridians and parallels a caller types by hand
+    pts += [(float(rng.choice([-180, -90, 0, 87, -93, 90, 180, rng.randint(-540, 540)])), float(rng.choice([-90, -89, 0, 45, 89, 90, rng.randint(-90, 90)]))) for _ in range(20 if tier == 'quick' else 300)]
     for _ in range(n_random):
         pts.append((rng.uniform(-180, 180), math.degrees(math.asin(rng.uniform(-1, 1)))))
     for _ in range(n_random // 4):
